@@ -37,6 +37,9 @@ struct Del { long tag = -1; void operator()(Node* n) const; };
 #ifndef XV_MARKBITS
   #define XV_MARKBITS 0
 #endif
+#ifndef XV_FLUSH_FACTOR
+  #define XV_FLUSH_FACTOR 1   // reclaimers that try to advance their epoch only every n-th region entry need n times as many flush rounds
+#endif
 struct Node : R::template enable_concurrent_ptr<Node, XV_MARKBITS, Del> {
   long id; long canary;
   explicit Node(long i) : id(i), canary(0xA11CE) { xv::Quiet q; g_created++; }
@@ -60,7 +63,7 @@ struct ReclAdapter : Adapter {
   std::string violation;
 
   void setup(const Case& c) override {
-    ncells = (int)c.geti("cells", 2); nslots = (int)c.geti("slots", 3); flushes = (int)c.geti("flushes", 8);
+    ncells = (int)c.geti("cells", 2); nslots = (int)c.geti("slots", 3); flushes = (int)c.geti("flushes", 8) * XV_FLUSH_FACTOR;
     { xv::Quiet q; cells = new std::vector<CPtr>(ncells); }
     for (int i = 0; i < ncells; i++) (*cells)[i].store(new Node(g_next_id++), std::memory_order_relaxed);
     xv::Quiet q; for (int i = 0; i < ncells; i++) { static char nm[8][8]; snprintf(nm[i % 8], 8, "cell%d", i); xv::name_range(&(*cells)[i], sizeof(CPtr), nm[i % 8]); }
